@@ -140,6 +140,9 @@ class Check:
                     return (self.prop in clause_props(cl)) if own is None else (any(cl.startswith(o) for o in own) or self.prop in ALSO.get(cl, ()))
                 if not owned(clause) and owned(v[3]):
                     clause = v[3]
+                elif not owned(v[3]):
+                    sec = self.notes.setdefault("secondary_clauses_not_owned_by_this_property", {})
+                    sec[v[3]] = sec.get(v[3], 0) + 1
             if clause == "ok":
                 if nontrivial is None or nontrivial(tr):
                     self.nontrivial.add(trace_key(tr))
